@@ -2,7 +2,7 @@
 from bounded import harness, persist
 from bounded.corpus import corpus, BOUND_TEXT
 
-FAMILIES = ['conn', 'conn2']
+FAMILIES = ['conn', 'conn2', 'mix']
 
 
 def member(desc, tier, seed):
